@@ -40,6 +40,7 @@ TReset ==
             /\ hq' = <<>> /\ hlog' = <<>> /\ hstat' = [h \in HTypes |-> NS] /\ hselRun' = "none"
             /\ canceled' = FALSE /\ lastErr' = FALSE /\ timedOut' = FALSE
             /\ spc' = "idle" /\ si' = 1 /\ sround' = "term"
+            /\ sreq' = [s \in Steps |-> FALSE] /\ prevented' = [s \in Steps |-> FALSE]
             /\ execs' = [s \in Steps |-> 0] /\ early' = FALSE /\ lateStart' = FALSE /\ lateFresh' = FALSE
             /\ created' = [s \in Steps |-> FALSE] /\ pastCreate' = [s \in Steps |-> FALSE]
             /\ hwm' = 0 /\ rwait' = [s \in Steps |-> FALSE] /\ lastOK' = [s \in Steps |-> FALSE]
